@@ -60,6 +60,22 @@ pub fn own_reply(v: &View, vd: &mut Verdict, prop: &str) {
     }
 }
 
+/// (a') a call whose handler ran to completion gets that handler's result: the response is on its way
+/// before anything else can happen to the actor, so neither a stop queued right behind the message nor
+/// the actor's end turns it into an error
+pub fn handled_call_ok(v: &View, vd: &mut Verdict, prop: &str) {
+    for o in v.client_ops().filter(|o| o.what == OpWhat::Call && o.err()) {
+        let id = o.msg.unwrap();
+        let invs = v.inv_of_msg(id);
+        if invs.len() == 1 && invs[0].exit.is_some() {
+            vd.fail(
+                format!("{prop}/handled_call_err"),
+                format!("call client {} op {} (msg {id}) was handled to completion (invocation {} exited at {:?}) but returned {:?}", o.client, o.op, invs[0].inv, invs[0].exit, o.res),
+            );
+        }
+    }
+}
+
 /// (b) nothing hangs
 pub fn resolves(v: &View, vd: &mut Verdict, prop: &str) {
     for o in v.client_ops() {
@@ -163,6 +179,7 @@ pub fn check(v: &View, vd: &mut Verdict) {
     // sanity rules of another property never produce a C02 violation
     vd.violations.retain(|x| !x.sig.starts_with("C02/sanity"));
     own_reply(v, vd, "C02");
+    handled_call_ok(v, vd, "C02");
     resolves(v, vd, "C02");
     errors_after_death(v, vd, "C02");
     for (tag, msg) in &v.flags.foreign_panics {
